@@ -103,7 +103,14 @@ def check_property(pid, tier="quick", only_jobs=None, keep=False, seed=0):
         if len(can) < j.get("min_canaries", 1 if j.get("kind", "cbmc") == "cbmc" else 0):
             tool_errors.append("%s: expected reachability canaries, found %d" % (j["name"], len(can)))
             continue
-        rel = [o for o in r.obligations if relevant(o, j, pid)]
+        # obligations a job exempts (documented tool limitations, each with a
+        # reason and the job that covers the fact instead)
+        exempt = []
+        for ex in j.get("exempt", []):
+            rx = re.compile(ex["match"])
+            exempt += [o for o in r.obligations if rx.search(o.name)]
+        exempt_names = set(o.name for o in exempt)
+        rel = [o for o in r.obligations if relevant(o, j, pid) and o.name not in exempt_names]
         if len(rel) < j.get("min_obligations", 1):
             tool_errors.append("%s: only %d obligations generated for %s (floor %d)"
                                % (j["name"], len(rel), pid, j.get("min_obligations", 1)))
@@ -150,6 +157,9 @@ def check_property(pid, tier="quick", only_jobs=None, keep=False, seed=0):
                         "cases_of_full_partition": len(j["cases"]) if j.get("cases") else None,
                         "case_subset_note": (j.get("cases_quick_note") if (tier == "quick" and j.get("cases_quick")) else None),
                         "verdicts_reused_from_memo": bool(r.cached),
+                        "exempted_obligations": [{"match": ex["match"], "reason": ex["reason"],
+                                                  "count": len([o for o in r.obligations if re.search(ex["match"], o.name)])}
+                                                 for ex in j.get("exempt", [])],
                         "functions": j.get("functions", []),
                         "obligations": len(rel), "discharged": len(ok),
                         "canaries_failing_as_required": len(can),
